@@ -471,6 +471,11 @@ func (in *c19Interp) eval(e ast.Expr, env *c19Env) c19Value {
 				return s.elems[i]
 			}
 		}
+		if mv, ok := base.(c19MapVal); ok {
+			if v, _, decided := in.mapIndex(mv, idx); decided {
+				return v
+			}
+		}
 		return in.opaque(in.info.TypeOf(e), in.src(e))
 	case *ast.SliceExpr:
 		in.eval(x.X, env)
@@ -585,6 +590,8 @@ func (in *c19Interp) evalComposite(x *ast.CompositeLit, env *c19Env) c19Value {
 			elems = append(elems, in.eval(el, env))
 		}
 		return c19Slice{elems: elems}
+	case *types.Map:
+		return in.evalMapLit(x, u, env)
 	}
 	for _, el := range x.Elts {
 		if kv, ok := el.(*ast.KeyValueExpr); ok {
@@ -823,7 +830,7 @@ func (in *c19Interp) equal(l, r c19Value) c19Value {
 		switch x := r.(type) {
 		case c19Nil:
 			return c19Bool(true)
-		case c19Ptr, *c19Obj, c19Closure, c19FuncVal, c19Slice, c19CellPtr, c19FieldPtr, c19Const, c19Time:
+		case c19Ptr, *c19Obj, c19Closure, c19FuncVal, c19Slice, c19MapVal, c19CellPtr, c19FieldPtr, c19Const, c19Time:
 			return c19Bool(false)
 		case *c19Opaque:
 			if x.nonNil {
@@ -1244,6 +1251,8 @@ func (in *c19Interp) evalBuiltin(name string, call *ast.CallExpr, env *c19Env) c
 			return c19Const{v: constant.MakeInt64(int64(len(x.elems))), typ: types.Typ[types.Int]}
 		case c19Nil:
 			return c19Const{v: constant.MakeInt64(0), typ: types.Typ[types.Int]}
+		case c19MapVal:
+			return c19Const{v: constant.MakeInt64(int64(len(*x.keys))), typ: types.Typ[types.Int]}
 		case c19Const:
 			if s, ok := c19AsString(x); ok {
 				return c19Const{v: constant.MakeInt64(int64(len(s))), typ: types.Typ[types.Int]}
@@ -1395,7 +1404,8 @@ func (in *c19Interp) extern(fn *types.Func, recv c19Value, args []c19Value, call
 		}
 	case "(*net/http.Request).WithContext", "(*net/http.Request).Clone":
 		return recv
-	case "(*strings.Builder).WriteString", "(*strings.Builder).WriteByte", "(*strings.Builder).WriteRune", "(*strings.Builder).String", "(*strings.Builder).Len", "(*strings.Builder).Reset":
+	case "(*strings.Builder).WriteString", "(*strings.Builder).WriteByte", "(*strings.Builder).WriteRune", "(*strings.Builder).String", "(*strings.Builder).Len", "(*strings.Builder).Reset",
+		"(*bytes.Buffer).WriteString", "(*bytes.Buffer).WriteByte", "(*bytes.Buffer).WriteRune", "(*bytes.Buffer).String", "(*bytes.Buffer).Len", "(*bytes.Buffer).Reset":
 		if v, ok := in.builder(fn.Name(), recv, args, sig); ok {
 			return v
 		}
@@ -1438,7 +1448,7 @@ func c19BuilderObj(v c19Value) *c19Obj {
 	case *c19Obj:
 		o = x
 	}
-	if o != nil && namedPath(o.typ) == "strings.Builder" {
+	if o != nil && (namedPath(o.typ) == "strings.Builder" || namedPath(o.typ) == "bytes.Buffer") {
 		return o
 	}
 	return nil
@@ -1720,6 +1730,18 @@ func (in *c19Interp) execAssign(x *ast.AssignStmt, env *c19Env) {
 		case *ast.TypeAssertExpr:
 			v, ok := in.typeAssert(r, env)
 			vals = []c19Value{v, c19Bool(ok)}
+		case *ast.IndexExpr:
+			// v, ok := table[key]
+			base, idx := in.eval(r.X, env), in.eval(r.Index, env)
+			if mv, isMap := base.(c19MapVal); isMap {
+				if v, present, decided := in.mapIndex(mv, idx); decided {
+					vals = []c19Value{v, c19Bool(present)}
+					break
+				}
+			}
+			for _, l := range x.Lhs {
+				vals = append(vals, in.opaque(in.lhsType(l), in.src(x.Rhs[0])))
+			}
 		default:
 			v := in.eval(x.Rhs[0], env)
 			t, ok := v.(c19Tuple)
@@ -1839,6 +1861,9 @@ func (in *c19Interp) assign(l ast.Expr, v c19Value, env *c19Env) {
 			if i, ok := c19AsInt(idx); ok && i >= 0 && int(i) < len(s.elems) {
 				s.elems[i] = v
 			}
+		}
+		if mv, ok := base.(c19MapVal); ok {
+			in.mapStore(mv, idx, v)
 		}
 	default:
 		in.abort("assignment to `%s`", in.src(l))
